@@ -71,7 +71,8 @@ fn gen_file_case(rng: &mut Rng) -> FileCase {
     let fastq = rng.chance(1, 3);
     let recs = gen_recs(rng, fastq);
     let mut opts = SerOpts::random(rng);
-    if fastq {
+    if fastq && !rng.chance(1, 4) {
+        // three in four FASTQ files are plain 4-line; the rest wrap sequence and quality lines
         opts.wrap = None;
     }
     let gz = match rng.below(7) {
@@ -174,7 +175,6 @@ pub fn files(ctx: &Ctx) -> Stats {
             fc2.gz = fc.gz.clone();
             fc2.suffix = fc.suffix.clone();
             if fc2.fastq {
-                fc2.opts.wrap = None;
                 for r in fc2.recs.iter_mut() {
                     if r.seq.is_empty() {
                         r.seq = b"ACGT".to_vec();
@@ -211,6 +211,14 @@ pub fn suffixes(_ctx: &Ctx) -> Stats {
         ("x.fastq.gz", Some(true)),
         ("dir.fq/reads.fa", Some(false)),
         ("a.b.c.fastq", Some(true)),
+        // only the final suffix (before an optional .gz) decides
+        ("SRR390728.fastq.contigs.fa", Some(false)),
+        ("x.fq.assembled.fasta.gz", Some(false)),
+        ("genome.fa.simulated.fq", Some(true)),
+        ("g.fasta.sim.fastq.gz", Some(true)),
+        ("a.fna.fq", Some(true)),
+        ("a.fq.fna", Some(false)),
+        ("reads.gz.fa", Some(false)),
     ];
     for (i, (p, want)) in table.iter().enumerate() {
         st.case(true, i as u64 + 1);
@@ -264,6 +272,74 @@ pub fn cli_rows(ctx: &Ctx) -> Stats {
             st.violate(sig, format!("[{}] {} rows for {} records", fc.describe(), rows, fc.recs.len()), case());
         } else if idx % 13 == 0 {
             st.sample(Json::obj().set("layout", Json::s(fc.describe())).set("rows", Json::u(rows)));
+        }
+    })
+}
+
+/// multi-member gzip whose first member has a compressed length of exactly 2^p - 1, 2^p, 2^p + 1 bytes for
+/// typical buffer sizes (a member header split across a refill of the underlying reader): stored members make
+/// the compressed length controllable
+pub fn member_boundaries(ctx: &Ctx) -> Stats {
+    use flate2::write::GzEncoder;
+    use flate2::Compression;
+    use std::io::Write;
+    let powers: &[u32] = if ctx.tier == Tier::Quick { &[13, 16, 17, 20] } else { &[12, 13, 15, 16, 17, 18, 20, 21, 22] };
+    let mut targets: Vec<usize> = Vec::new();
+    for &p in powers {
+        for d in [-2isize, -1, 0, 1] {
+            targets.push(((1usize << p) as isize + d) as usize);
+        }
+    }
+    let stored = |data: &[u8]| -> Vec<u8> {
+        let mut e = GzEncoder::new(Vec::new(), Compression::none());
+        e.write_all(data).unwrap();
+        e.finish().unwrap()
+    };
+    let n = targets.len() as u64;
+    par_cases(ctx, n, |idx, st| {
+        let mut rng = Rng::keyed(ctx.seed, "c06.member_boundaries", idx);
+        let target = targets[idx as usize];
+        // enough records to fill the target and go on for a while
+        let mut recs: Vec<Rec> = Vec::new();
+        let mut total = 0usize;
+        while total < target + 20_000 {
+            let len = rng.usize(20, 400);
+            let (_, seq) = gen_seq_any(&mut rng, len, true);
+            total += seq.len() + 12;
+            recs.push(Rec { id: format!("b{}", recs.len()), desc: None, seq });
+        }
+        let fc = FileCase { recs, fastq: false, opts: SerOpts { wrap: Some(80), crlf: false, final_newline: true }, gz: Some(GzLayout::Multi(3)), suffix: "fa.gz".into() };
+        let raw = ser::to_fasta(&fc.recs, &fc.opts);
+        // find the raw prefix length whose stored member is exactly `target` bytes long
+        let mut n1 = target.saturating_sub(40).min(raw.len());
+        let mut m1 = stored(&raw[..n1]);
+        let mut guard = 0;
+        while m1.len() != target && guard < 64 {
+            let diff = target as isize - m1.len() as isize;
+            n1 = (n1 as isize + diff).max(0) as usize;
+            if n1 > raw.len() {
+                break;
+            }
+            m1 = stored(&raw[..n1]);
+            guard += 1;
+        }
+        st.case(true, mix(idx) ^ mix(target as u64));
+        if m1.len() != target {
+            st.inconclusive(format!("could not craft a first member of exactly {} bytes (got {})", target, m1.len()));
+            return;
+        }
+        let cut2 = n1 + (raw.len() - n1) / 2;
+        let mut data = m1;
+        data.extend_from_slice(&ser::gzip(&raw[n1..cut2], &GzLayout::Single(6), &mut rng));
+        data.extend_from_slice(&stored(&raw[cut2..]));
+        let sc = Scratch::new(ctx, "c06b");
+        let path = sc.write("input.fa.gz", &data);
+        st.class(&format!("first-member-bytes~2^{}", (target as f64).log2().round() as u32));
+        if let Err((sig, msg)) = check_file(&path, &fc) {
+            st.violate(&format!("{}:member_boundary", sig), format!("first gzip member is exactly {} bytes long: {}", target, msg), fc.json().set("first_member_compressed_bytes", Json::u(target)));
+        }
+        if idx % 5 == 0 {
+            st.sample(Json::obj().set("first_member_compressed_bytes", Json::u(target)).set("members", Json::u(3)).set("records", Json::u(fc.recs.len())));
         }
     })
 }
